@@ -14,7 +14,7 @@ WS_ONE = [" ", "  ", "\t", "\n", "\n  ", "\r\n"]
 PLAIN = list("abcXYZ019 .;:!?+-*/()[]<>|'`~^_&%$") + ["é", "ß", "λ", "中", "@", "#", "ü", "Ø", "İ", "ı", "ſ", "ﬁ", "\ufeff", "\u00a0", "K"]
 ESCAPES = ["\\{", "\\}", '\\"', "\\,", "\\=", "\\\\ ", "\\\\", "\\\\", "\\'e", "\\&", "\\%", "\\@", "\\#", "\\ ", "\\o "]
 TYPES = ["article", "Book", "inproceedings", "MISC", "a", "techreport", "online", "x_y", "ärticle",
-         "commentary", "Comments", "stringent", "preambles", "PhdThesis", "B2", "_"]
+         "commentary", "Comments", "stringent", "preambles", "PhdThesis", "B2", "_", "İnbook", "ǅ", "ΣΑΣ", "ẞ"]
 FKEYS = ["author", "title", "year", "Month", "note", "url", "a", "b-c", "x_1", "Title", "editor", "pages",
          "journal", "doi", "é", "k.k", "a:b", "+", "volume", "number", "İd", "straße", "booktitle", "ID", "ENTRYTYPE", "id", "key", "type"]
 IDENTS = ["jan", "feb", "foo", "Bar", "x1", "a.b", "k-2", "mar", "acm", "IEEE", "s_1", "é", "a:b", "a+b"]
@@ -195,8 +195,7 @@ def preamble(r, opts):
 
 def ecomment(r, opts):
     t = _no_trailing_backslash(_defuse(body(r, opts, 1)))
-    if _no_trailing_backslash(t.strip()) != t.strip():   # the trimmed text is what the writer puts in front of '}'
-        t = t.strip() + "."
+    # (a comment ending in an escaped blank, '@comment{a\\ }', is in the dialect: the trimmed text must keep that blank)
     return "@" + r.choice(["comment", "Comment", "COMMENT"]) + r.choice(["", " "]) + "{" + t + "}", ["ecomment", t.strip()]
 
 
